@@ -265,6 +265,7 @@ func c13TargetName(c *c13Case, id int) string {
 type c13CtxModel struct {
 	IsT       []bool   `json:"isT"`
 	Path      []string `json:"path"`
+	TextPath  []string `json:"textPath"`
 	Interrupt bool     `json:"interrupt"`
 }
 
@@ -313,6 +314,13 @@ func c13CtxOne(ctx *vh.Ctx, c *c13Case) error {
 	if !vh.CanonEq(impl.Path, model.Path) {
 		ctx.Res.Disagree(vh.Disagreement{Signature: sig("nodePath"),
 			What: fmt.Sprintf("node path %v on the implementation, %v in the model", impl.Path, model.Path), Case: c, Model: model, Impl: impl})
+	}
+	if model.TextPath == nil {
+		model.TextPath = []string{}
+	}
+	if !vh.CanonEq(impl.TextPath, model.TextPath) {
+		ctx.Res.Disagree(vh.Disagreement{Signature: sig("textPath"),
+			What: fmt.Sprintf("the text of the returned error names the node path %v, the model %v", impl.TextPath, model.TextPath), Case: c, Model: model, Impl: impl})
 	}
 	if impl.Interrupt != model.Interrupt {
 		ctx.Res.Disagree(vh.Disagreement{Signature: sig("interrupt"), What: "interrupt classification differs", Case: c, Model: model, Impl: impl})
